@@ -7,9 +7,13 @@ import (
 	"errors"
 	"fmt"
 	"io"
+	"os"
 	"reflect"
+	"runtime"
+	"runtime/debug"
 	"strings"
 	"sync"
+	"sync/atomic"
 	"time"
 
 	"github.com/ossrs/go-oryx-lib/websocket"
@@ -24,7 +28,59 @@ import (
 // returned value, the bytes both endpoints wrote (tokenised by frames.go), the handler log, the sticky write error
 // and the reader's failed flag are compared with the specification's.
 
-func init() { registry["life"] = replayLife }
+func init() { batchRegistry["life"] = replayLifeAll }
+
+// replayLifeAll replays the behaviours on several goroutines (a behaviour is self-contained: two fresh connections on
+// a fresh transport). Each behaviour runs under a guard: a panic escaping the library and a call that never returns
+// are failing results, not a dead replayer.
+func replayLifeAll(c *rp.Ctx, cases []json.RawMessage) []rp.Result {
+	out := make([]rp.Result, len(cases))
+	workers := runtime.GOMAXPROCS(0)
+	if workers > 8 {
+		workers = 8
+	}
+	var wg sync.WaitGroup
+	next := int64(-1)
+	for w := 0; w < workers; w++ {
+		wg.Add(1)
+		go func() {
+			defer wg.Done()
+			for {
+				i := int(atomic.AddInt64(&next, 1))
+				if i >= len(cases) {
+					return
+				}
+				out[i] = guarded(c, i, cases[i])
+			}
+		}()
+	}
+	wg.Wait()
+	return out
+}
+
+func guarded(c *rp.Ctx, i int, raw json.RawMessage) rp.Result {
+	done := make(chan rp.Result, 1)
+	go func() {
+		defer func() {
+			if e := recover(); e != nil {
+				if _, ok := e.(rp.HarnessBug); ok {
+					fmt.Fprintf(os.Stderr, "replay: harness bug on case %d: %v\n%s\n", i, e, debug.Stack())
+					os.Exit(3)
+				}
+				done <- rp.Result{I: i, OK: false, What: fmt.Sprintf("panic: %v", e), Observed: string(debug.Stack())}
+			}
+		}()
+		r := replayLife(c, i, raw)
+		r.I = i
+		done <- r
+	}()
+	select {
+	case r := <-done:
+		return r
+	case <-time.After(rp.CaseTimeout):
+		return rp.Result{I: i, OK: false, What: fmt.Sprintf("stall: the behaviour did not finish within %v (a call into the library never returned)", rp.CaseTimeout)}
+	}
+}
 
 type bodyJ struct {
 	K    string `json:"k"`
@@ -235,7 +291,10 @@ func (ep *endpoint) install(h handlersJ, variant int) {
 			c.SetCloseHandler(nil)
 		}
 	case "silent":
-		c.SetCloseHandler(func(code int, text string) error { ep.log = append(ep.log, hcall{K: "close", Code: code, Text: text}); return nil })
+		c.SetCloseHandler(func(code int, text string) error {
+			ep.log = append(ep.log, hcall{K: "close", Code: code, Text: text})
+			return nil
+		})
 	case "err":
 		c.SetCloseHandler(func(code int, text string) error {
 			ep.log = append(ep.log, hcall{K: "close", Code: code, Text: text})
@@ -808,7 +867,7 @@ func sameRet(st *lstep, g got, seed int) error {
 	if g.C == "wouldblock" {
 		return fmt.Errorf("the call wanted more bytes than the peer has written (%v); the specification says it returns %s", g.Err, w.C)
 	}
-	if g.C != w.C {
+	if g.C != w.C && !(failedWrite(g.C) && failedWrite(w.C)) {
 		return fmt.Errorf("returned %v, the specification says %s", g, retText(w))
 	}
 	switch w.C {
@@ -847,6 +906,10 @@ func sameRet(st *lstep, g got, seed int) error {
 	return nil
 }
 
+// a write that fails for another reason than a Close sent before: "io" (and the error sticks) or "invalid" (the call is
+// refused, nothing changes). Which error value it is, is the library's business; the sticky write error is compared apart.
+func failedWrite(c string) bool { return c == "io" || c == "invalid" }
+
 func retText(w retJ) string {
 	switch w.C {
 	case "close":
@@ -882,5 +945,16 @@ func sameCalls(st *lstep, ep, peer *endpoint) error {
 
 // deviationOf names the deviation a mismatch at step k belongs to, if it is one the specification knows.
 func deviationOf(cs *lifeCase, k int, g got) string {
+	st := &cs.Steps[k]
+	if st.A == "read" && st.Ret.C == "protocol" {
+		// RFC 6455 5.5.1: a Close body, if there is one, starts with a 2-byte code. The library takes a body of one byte
+		// for no body at all (close code 1005, its handler called, an empty Close echoed)
+		for j := 0; j < k; j++ {
+			p := &cs.Steps[j]
+			if p.A == "wclose" && p.E == peerOf(st.E) && p.Ret.C == "ok" && p.Arg.Body.K == "raw1" {
+				return "X05/one-byte-close-body-accepted"
+			}
+		}
+	}
 	return ""
 }
